@@ -697,7 +697,50 @@ def r51(orig, rule):
     return 'for %s in %s.iter() {' % (x, e)
 
 
+def r52(orig, rule):
+    # [pub] fn N(mut self, ARGS) -> R { BODY }   ->   [pub] fn N(self, ARGS) -> R { let mut this = self; BODY[self := this] }
+    #   (a `mut self` receiver is a by-value parameter bound mutably; moving it into a fresh mutable local and using that local
+    #    instead is the same function.  Verus does not accept `mut self`.)  Inside BODY, `assert!(C, "msg" ..);` loses its
+    #    message as in R18a (same panic condition).
+    toks = texts(lex(orig)[0])
+    try:
+        i = toks.index('(')
+    except ValueError:
+        raise NoMatch('no parameter list')
+    if toks[i + 1:i + 3] != ['mut', 'self']:
+        raise NoMatch('receiver is not `mut self`')
+    b = toks.index('{')
+    if toks[-1] != '}':
+        raise NoMatch('not a whole fn item')
+    if 'this' in toks:
+        raise NoMatch('`this` already used')
+    head = toks[:i + 1] + toks[i + 2:b + 1]
+    body = ['this' if t == 'self' else t for t in toks[b + 1:-1]]
+    out, k = [], 0
+    while k < len(body):
+        if body[k:k + 3] == ['assert', '!', '('] and (k == 0 or body[k - 1] in (';', '{', '}')):
+            depth, j = 0, k + 2
+            while True:
+                if body[j] in '([{':
+                    depth += 1
+                elif body[j] in ')]}':
+                    depth -= 1
+                    if depth == 0:
+                        break
+                j += 1
+            stmt = body[k:j + 2]
+            try:
+                out.append(r18a(' '.join(stmt), 'R18a'))
+            except NoMatch:
+                out.extend(stmt)
+            k = j + 2
+        else:
+            out.append(body[k]); k += 1
+    return ' '.join(head) + ' let mut this = self ; ' + ' '.join(out) + ' }'
+
+
 GENERATORS = {
+    'R52': r52,
     'R50': r50, 'R51': r51,
     'R49': r49,
     'R48': r48,
